@@ -98,14 +98,26 @@ func genTls() {
 	vm := refs.fn("", "validateBackendTLSPolicyMatchingAllBackends")
 	m.strs("mismatchBody", refs.stmts(vm.Body), "statements of validateBackendTLSPolicyMatchingAllBackends")
 	var loopBody []string
+	compare := ""
 	walk(vm.Body, func(n ast.Node) bool {
 		if rs, ok := n.(*ast.RangeStmt); ok && loopBody == nil {
 			loopBody = refs.stmts(rs.Body)
 			return false
 		}
+		if fs, ok := n.(*ast.ForStmt); ok && loopBody == nil {
+			loopBody = append([]string{"for " + refs.text(fs.Init) + "; " + refs.text(fs.Cond) + "; " + refs.text(fs.Post)},
+				refs.stmts(fs.Body)...)
+			return false
+		}
+		if as, ok := n.(*ast.AssignStmt); ok && compare == "" && len(as.Rhs) == 1 {
+			if _, isFn := as.Rhs[0].(*ast.FuncLit); isFn {
+				compare = refs.text(as)
+			}
+		}
 		return true
 	})
-	m.strs("mismatchLoopBody", loopBody, "body of the `for _, backendRef := range backendRefs` loop")
+	m.strs("mismatchLoopBody", loopBody, "body of the loop over backendRefs (preceded by the for clause when it is a counting loop)")
+	m.str("mismatchCompare", compare, "the closure that compares two policies")
 	// the guard around the call in addBackendRefsToRules
 	guard := ""
 	walk(refs.fn("", "addBackendRefsToRules").Body, func(n ast.Node) bool {
